@@ -99,6 +99,16 @@ def tokens(tier, rng):
             for kind in ("U", "B"):
                 for sep in ("_", ""):
                     lit(16, d, kind, w, sep)
+    # long decimal literals with runs of trailing (and inner) zeros: a chunked accumulator must not drop a final chunk of zeros
+    for w in (64, 65, 128, 256, 512):
+        for k in range(17, 62):
+            for dd in (1, 2, 9, 123, 10 ** 18 + 1):
+                v = dd * 10 ** k
+                if v.bit_length() > w + 2 or (quick and rng.random() < 0.55):
+                    continue
+                lit(10, text(v, 10), "U", w, "_")
+        lit(10, "1" + "0" * 19 + "7" + "0" * 19, "U", max(w, 256), "_")
+        lit(10, "9" * 19 + "0" * 19, "U", max(w, 128), "_")
     # non-matching tokens: must pass through unchanged
     for t in ["1_u8", "300_u16", "0xAB12", "0xffB8", "0xBBBB_B432_u64", "12", "0b101", "0o17", "1_000_000u64", "255u8", "0xB", "0xB8",
               "0xABB16", "2.5", "1.0_f64", "1e3", '"5_U8"', '"U8"', "'U'", "'B'", 'b"1_U8"', "true", "0x1B8_i32", "0xffu8", "7_i64",
@@ -156,9 +166,14 @@ def gen_source(items, stub):
             lines.append(body)
             line_of[len("\n".join(lines).split("\n"))] = name
             names.append(name)
+    # a probe that compiles but panics when it is run (e.g. a wrongly accepted literal whose limbs from_limbs rejects) is an
+    # observation, not a tool failure
+    # (one function-pointer instantiation of catch_unwind: thousands of generic instantiations made rustc take minutes)
+    lines.append('fn run_probe(f: fn() -> String) -> String { std::panic::catch_unwind(f).unwrap_or_else(|_| "PANIC".to_string()) }')
     lines.append("fn main() {")
+    lines.append("    std::panic::set_hook(Box::new(|_| {}));")
     for n in names:
-        lines.append(f'    println!("{n}\\t{{}}", {n}());')
+        lines.append(f'    println!("{n}\\t{{}}", run_probe({n}));')
     lines.append("}")
     return "\n".join(lines) + "\n", line_of
 
@@ -229,6 +244,8 @@ def parse_desc(s):
     """describe() output -> observation tuple for the event"""
     if s == "ERROR":
         return ["error"]
+    if s == "PANIC":
+        return ["panic"]
     kind = s[0]
     if kind in "UB":
         _, bits, limbs, arr = s.split(" ", 3)
